@@ -641,6 +641,13 @@ func c01eWorklist(c *Ctx) {
 		}
 		role := finalRole(c, fn, ci)
 		use := chunkLastUse(ci)
+		// the fields are judged where the chunk is stored into the final table: a field set
+		// on some paths only (`if !shortcut { chunk.branchBehavior = … }`) is not set
+		instrs(fn, func(in ssa.Instruction) {
+			if mu, ok := in.(*ssa.MapUpdate); ok && mu.Value == ssa.Value(ci.a) {
+				use = mu
+			}
+		})
 		bb := c.nodePath(fn, ci.a, use, "branchBehavior")
 		pos := c.W.Pos(ci.a.Pos())
 		cur := strings.SplitN(ci.stmts, ".statements[:", 2)[0]
